@@ -491,7 +491,7 @@ def run(ctx):
         jobs.append((res["trace"], "local", "counter-example CasAtomic"))
     elif not variant["Lock"] and not locks:
         ctx.machinery("spec without lock does not violate CasAtomic")
-    behs, _ = tlc.simulate(ctx, "GitRefs", cfg_text=cfg_text(two, view=False), num=220 if ctx.quick else 4000, depth=16,
+    behs, _ = tlc.simulate(ctx, "GitRefs", cfg_text=cfg_text(two, view=False), num=200 if ctx.quick else 2500, depth=16,
                            seed=ctx.seed + 1, label="simulate 2 updaters")
     for i, b in enumerate(behs):
         jobs.append((b, "memory" if i % 4 else "local", "schedule"))
@@ -524,7 +524,7 @@ def run(ctx):
     ctx.count(len(traces), traces=len(traces))
     for t in traces[:60]:
         ctx.nontrivial(("e3", json.dumps([t["init"], t["jobs"], t["schedule"]], sort_keys=True)))
-    doctored = selftest_cases(traces)
+    doctored = selftest_cases()
     verdicts = judge(ctx, traces + doctored, label="judge random executions + fetch_refs + binding self-test")
     selftest_check(ctx, doctored, [verdicts.pop(len(traces) + i + 1) for i in range(len(doctored))])
     report(ctx, traces, verdicts)
@@ -579,15 +579,19 @@ def fetch_refs_stale(ctx, kind):
         raw = w.raw()
         v1 = raw.get_bytes(REF).rstrip(b"\n")
         tok = {v1: "v1", VAL["v2"]: "v2"}
-        init = project(raw, tok=tok)
+        def proj():
+            d = project(raw, tok=tok)
+            d["head"] = "absent"        # the repository's HEAD names another branch: irrelevant to refs/heads/m
+            return d
+        init = proj()
         events, state = [], {"snap": None, "call": None}
         refs = inter.target_refs
         orig = refs.set_if_equals
 
         def spy(name, old, new, *a, **k):
             tok.setdefault(new, "v3")
-            events.append(dict(project(raw, tok=tok), p="x", k="begin", f="-", res="-",
-                               v0=dict(_V0, packed=project(raw, tok=tok)["packed"] if refs._packed_refs is not None else "unread")))
+            events.append(dict(proj(), p="x", k="begin", f="-", res="-",
+                               v0=dict(_V0, packed=proj()["packed"] if refs._packed_refs is not None else "unread")))
             state["call"] = [name, old, new]
             n0 = len(w.log)
             r = orig(name, old, new, *a, **k)
@@ -604,15 +608,15 @@ def fetch_refs_stale(ctx, kind):
             # the second updater, between snapshot and update
             from breezy.git.transportgit import TransportRefsContainer
             TransportRefsContainer(raw).set_if_equals(ref, None, VAL["v2"])
-            events.append(dict(project(raw, tok=tok), p="y", k="w", f="m", res="-", v0=_V0))
-            events.append(dict(project(raw, tok=tok), p="y", k="ret", f="-", res="T", v0=_V0))
+            events.append(dict(proj(), p="y", k="w", f="m", res="-", v0=_V0))
+            events.append(dict(proj(), p="y", k="ret", f="-", res="T", v0=_V0))
             return {ref: (None, b"r1")}
         with src.lock_read():
             inter.fetch_refs(update, lossy=True)
         # x's transport operations inside the conditional update were performed in this thread (ungated): rebuild its
         # events from the log; reads saw the disk as y left it, the write (if any) produced the final disk
         after_y = {k: events[-1][k] for k in ("head", "loose", "packed")}
-        final = project(raw, tok=tok)
+        final = proj()
         for k, f in state.get("ops", []):
             events.append(dict(after_y if k == "r" else final, p="x", k=k, f=f, res="-", v0=_V0))
         if state["call"] is None:
@@ -639,20 +643,16 @@ def fetch_refs_stale(ctx, kind):
 
 
 # ----------------------------------------------------------------------------- binding self-test
-def selftest_cases(traces):
-    """A clean recorded execution and two doctored copies that must be judged bad by TLC."""
-    good = next((t for t in traces if t.get("label") == "random" and t["jobs"]["y"]["op"] == "set"
-                 and t["jobs"]["y"]["old"] == "none" and t["jobs"]["x"]["old"] == "none" and t["jobs"]["x"]["op"] == "set"), None)
-    if good is None:
-        good = {"init": {"head": "absent", "loose": "v1", "packed": "absent"},
-                "jobs": {"x": dict(IDLE), "y": {"op": "set", "name": "m", "old": "none", "new": "v4", "warm": False,
-                                                "site": "set_if_equals"}},
-                "events": [{"head": "absent", "loose": "v4", "packed": "absent", "p": "y", "k": "w", "f": "m", "res": "-",
-                            "v0": _V0},
-                           {"head": "absent", "loose": "v4", "packed": "absent", "p": "y", "k": "ret", "f": "-", "res": "T",
-                            "v0": _V0}]}
+def selftest_cases():
+    """A clean execution (synthetic, so that the self-test does not depend on the code under test) and two doctored
+    copies that TLC must judge bad."""
+    d = {"head": "absent", "loose": "v4", "packed": "absent"}
+    good = {"init": {"head": "absent", "loose": "v1", "packed": "absent"},
+            "jobs": {"x": dict(IDLE), "y": {"op": "set", "name": "m", "old": "none", "new": "v4", "warm": False,
+                                            "site": "set_if_equals"}},
+            "events": [dict(d, p="y", k="w", f="m", res="-", v0=_V0), dict(d, p="y", k="ret", f="-", res="T", v0=_V0)]}
     bad1 = copy.deepcopy(good)          # the unconditional update becomes conditional on a value the ref never held
-    bad1["jobs"]["y"]["old"] = "zero" if good["init"]["loose"] != "absent" or good["init"]["packed"] != "absent" else "v2"
+    bad1["jobs"]["y"]["old"] = "zero"
     bad2 = copy.deepcopy(good)          # a refusal that wrote
     for e in bad2["events"]:
         if e["p"] == "y" and e["k"] == "ret":
